@@ -128,7 +128,40 @@ def gen_model(cls, rng, depth, McpBase, variant=0, optional_mask=None, extras=Tr
             out[wire] = "x"
     if extras and depth <= 2:
         out["x-extra"] = {"deep": None, "n": [1, None]}
+        # unknown members whose names look private, or equal another model's alias, are members too
+        out["_trace"] = [1, None, "t"]
+        wires = {f[1] for f in fields} | {f[0] for f in fields}
+        if "_meta" not in wires and "meta" not in wires:
+            out["_meta"] = {"x-unknown": 1}
     return out
+
+
+def scramble(obj, McpBase, seen=None):
+    """edit a typed view in place (every nested model, list and dict it holds): later validations
+    in the same process must not be able to see it"""
+    seen = seen if seen is not None else set()
+    if id(obj) in seen:
+        return
+    seen.add(id(obj))
+    if isinstance(obj, McpBase):
+        for k, v in list(vars(obj).items()):
+            if k.startswith("__"):
+                continue
+            try:
+                if isinstance(v, bool):
+                    setattr(obj, k, not v)
+                elif isinstance(v, (McpBase, list, dict)):
+                    scramble(v, McpBase, seen)
+            except Exception:
+                pass
+    elif isinstance(obj, list):
+        for v in obj:
+            scramble(v, McpBase, seen)
+        obj.append("SCRAMBLED")
+    elif isinstance(obj, dict):
+        for v in list(obj.values()):
+            scramble(v, McpBase, seen)
+        obj["SCRAMBLED"] = True
 
 
 def typed_tree(obj, McpBase):
@@ -178,21 +211,51 @@ def main():
         out["cases"] = cases
     elif op == "validate":
         res = []
-        for case in req["cases"]:
+        order = list(range(len(req["cases"])))
+        if req.get("reverse"):
+            order.reverse()
+        slots = {}
+        for i in order:
+            case = req["cases"][i]
             c = classes.get(case["cls"])
             w = untag(case["wire"])
-            r = {"cls": case["cls"]}
+            r = {"cls": case["cls"], "stable": True}
+            slots[i] = r
             if c is None:
                 r.update(ok=False, exc="NoSuchClass", typed=None, dump=["null"])
-                res.append(r)
                 continue
             try:
                 o = c.model_validate(w)
                 d = o.model_dump(by_alias=True, exclude_none=True)
                 r.update(ok=True, exc="", typed=typed_tree(o, McpBase), dump=tag(d))
+                if req.get("two_pass"):
+                    scramble(o, McpBase)
             except Exception as e:
                 r.update(ok=False, exc=type(e).__name__ + ": " + str(e)[:200], typed=None, dump=["null"])
-            res.append(r)
+        if req.get("two_pass"):
+            # the same objects again, after every typed view of the first pass was edited in place
+            for i in order:
+                case = req["cases"][i]
+                c = classes.get(case["cls"])
+                r = slots[i]
+                if c is None or not r["ok"]:
+                    continue
+                try:
+                    o = c.model_validate(untag(case["wire"]))
+                    r["stable"] = tag(o.model_dump(by_alias=True, exclude_none=True)) == r["dump"]
+                except Exception:
+                    r["stable"] = False
+        out["results"] = [slots[i] for i in range(len(req["cases"]))]
+    elif op == "parse":
+        from chuk_mcp.protocol.messages.json_rpc_message import parse_message
+        res = []
+        for case in req["cases"]:
+            w = untag(case["wire"])
+            try:
+                o = parse_message(w)
+                res.append({"ok": True, "cls": type(o).__name__, "dump": tag(o.model_dump(exclude_none=True)), "exc": ""})
+            except Exception as e:
+                res.append({"ok": False, "cls": "", "dump": ["null"], "exc": type(e).__name__})
         out["results"] = res
     elif op == "hooks":
         res = []
@@ -380,6 +443,48 @@ def env_class(d):
             "msgStr": isinstance(err, dict) and isinstance(err.get("message"), str)}
 
 
+def _emit_via_helper(em, idv, payload):
+    """the message a sending helper writes, captured at the write stream"""
+    import asyncio
+    import anyio
+
+    class Stop(Exception):
+        pass
+
+    class Cap:
+        def __init__(self):
+            self.msgs = []
+
+        async def send(self, m):
+            self.msgs.append(m)
+            raise Stop()
+
+    cap = Cap()
+
+    async def go():
+        from chuk_mcp.protocol.messages.send_message import send_message
+        rs_send, rs = anyio.create_memory_object_stream(1)
+        try:
+            if em == "send_message":
+                await send_message(rs, cap, "tools/call", payload, timeout=0.01, message_id=idv)
+            elif em == "send_tools_call":
+                from chuk_mcp.protocol.messages.tools.send_messages import send_tools_call
+                await send_tools_call(rs, cap, "tool-x", payload or {}, timeout=0.01)
+            elif em == "send_cancelled_notification":
+                from chuk_mcp.protocol.messages.notifications import send_cancelled_notification
+                await send_cancelled_notification(cap, idv, "why")
+            elif em == "send_progress_notification":
+                from chuk_mcp.protocol.messages.notifications import send_progress_notification
+                await send_progress_notification(cap, idv, 0.5, 1.0, "half")
+        except Stop:
+            pass
+
+    asyncio.run(go())
+    if not cap.msgs:
+        raise RuntimeError("nothing written")
+    return cap.msgs[0]
+
+
 def run_emit(cases):
     from chuk_mcp.protocol.messages import json_rpc_message as J
     res = []
@@ -413,6 +518,30 @@ def run_emit(cases):
                 m = J.JSONRPCMessage.create_response(idv, payload)
             elif em == "legacy.create_error_response":
                 m = J.JSONRPCMessage.create_error_response(idv, -32002, "bad", payload)
+            elif em in ("send_message", "send_tools_call", "send_cancelled_notification", "send_progress_notification"):
+                m = _emit_via_helper(em, idv, payload)
+            elif em.startswith("batch.item_error"):
+                from chuk_mcp.protocol.features.batching import BatchProcessor
+                kind = em.split(":")[1]
+
+                class Boom(Exception):
+                    pass
+
+                exc = Boom("boom \u00e9")
+                if kind == "intcode":
+                    exc.code = -32001
+                elif kind == "strcode":
+                    exc.code = "e3q8"
+                elif kind == "nullcode":
+                    exc.code = None
+                elif kind == "floatcode":
+                    exc.code = 1.5
+
+                def handler(_item, exc=exc):
+                    raise exc
+
+                out = BatchProcessor("2025-03-26").process_message_data([{"jsonrpc": "2.0", "id": idv, "method": "m", "params": payload}], handler)
+                m = out[0]
             else:
                 raise KeyError(em)
         except Exception as e:
@@ -420,6 +549,17 @@ def run_emit(cases):
             res.append(r)
             continue
         forms = {}
+        if isinstance(m, dict):
+            class _D:
+                def __init__(self, d):
+                    self.d = d
+
+                def model_dump(self, **_k):
+                    return self.d
+
+                def model_dump_json(self, **_k):
+                    return json.dumps(self.d)
+            m = _D(m)
         try:
             forms["dump"] = m.model_dump(exclude_none=True)
         except Exception as e:
